@@ -1,5 +1,5 @@
 """C11 - flatten, unflatten and reshape group dimensions losslessly."""
-import copy, itertools
+import copy, itertools, warnings
 import numpy as np
 import core, gen, ops
 from core import da, Axis, DimArray, MultiAxis
@@ -647,11 +647,110 @@ class C11(Prop):
                 yield self.gen_nested(rng)
         for c in self.exhaustive():
             yield c
+        for c in self.tuple_reductions(rng, 150 if tier == "quick" else 3000):
+            yield c
+
+    TRED_FUNCS = ["sum", "max", "mean", "cumsum", "cumprod", "argmax", "argmin", "diff"]
+
+    def tuple_reductions(self, rng, n):
+        """last clause of the statement: reducing (or scanning, or locating the extremum) over a tuple / list of dimensions
+        equals doing so over the flattened group - in the LISTED order, which matters for the order-sensitive functions.
+        Systematic part: every ordered subset of >= 2 dimensions (all of them included) of fixed rank-2 and rank-3 arrays x
+        every function; then random arrays."""
+        def fixed(rank):
+            return {"axes": [{"name": gen.DIMS[i], "kind": ["i", "O", "f"][i],
+                              "labels": [gen.enc(v) for v in ([10, 20], ["a", "b", "c"], [0.5, 1.5, 2.5, 3.5])[i]]}
+                             for i in range(rank)], "vkind": "f"}
+        for rank in (2, 3):
+            arr = fixed(rank)
+            names = [a["name"] for a in arr["axes"]]
+            for k in range(2, rank + 1):
+                for ds in itertools.permutations(names, k):
+                    for fn in self.TRED_FUNCS:
+                        yield {"op": "tred", "array": arr, "dims": list(ds), "fn": fn, "how": "tuple" if (len(fn) + k) % 2 else "list",
+                               "nolean": True, "steps": []}
+        for _ in range(n):
+            rank = rng.choice([2, 3, 3, 4])
+            arr = gen.rand_array(rng, rank=rank, maxn=3, minn=1, vkind="f")
+            names = [a["name"] for a in arr["axes"]]
+            k = rng.randint(2, rank)
+            ds = rng.sample(names, k)
+            spell = [d if rng.random() < 0.7 else names.index(d) for d in ds]
+            yield {"op": "tred", "array": arr, "dims": ds, "spell": spell, "fn": rng.choice(self.TRED_FUNCS),
+                   "how": rng.choice(["tuple", "list"]), "skipna": rng.random() < 0.3, "nolean": True, "steps": []}
+
+    def impl_tred(self, c):
+        toks = core.AttrTokens()
+        a = core.build_array(c["array"], 0)
+        before = obs11(a, toks)
+        keys = c.get("spell", c["dims"])
+        axis = tuple(keys) if c["how"] == "tuple" else list(keys)
+        kw = {"skipna": True} if c.get("skipna") and c["fn"] != "diff" else {}
+
+        def canon(r):
+            if isinstance(r, DimArray):
+                return {"arr": core.obs_array(r, toks)}
+            if isinstance(r, tuple):
+                return {"tuple": [core.enc_label(x) for x in r]}
+            return {"scalar": core.canon_value(r)}
+
+        def run():
+            with warnings.catch_warnings():
+                warnings.simplefilter("ignore")
+                direct = getattr(a, c["fn"])(axis=axis, **kw)
+                g = a.flatten(tuple(c["dims"]), insert=0)
+                via = getattr(g, c["fn"])(axis=0, **kw)
+                # NumPy on the plain values: the listed dimensions first, in the listed order, collapsed row-major
+                names = [x["name"] for x in c["array"]["axes"]]
+                perm = [names.index(d) for d in c["dims"]] + [i for i, d in enumerate(names) if d not in c["dims"]]
+                v = a.values.transpose(perm)
+                v = v.reshape((-1,) + v.shape[len(c["dims"]):])
+                npf = {"sum": np.sum, "max": np.max, "mean": np.mean, "cumsum": np.cumsum, "cumprod": np.cumprod,
+                       "argmax": np.argmax, "argmin": np.argmin, "diff": np.diff}[c["fn"]]
+                ref = npf(v, axis=0)
+                out = {"direct": canon(direct), "via": canon(via)}
+                if c["fn"] in ("argmax", "argmin"):
+                    sizes = [len(c["array"]["axes"][names.index(d)]["labels"]) for d in c["dims"]]
+                    labs = [a.axes[d].values for d in c["dims"]]
+                    def lab(p):
+                        return core.enc_label(tuple(labs[i][q] for i, q in enumerate(np.unravel_index(int(p), sizes))))
+                    out["ref"] = [lab(p) for p in np.asarray(ref).reshape(-1)]
+                    got = direct.values.reshape(-1).tolist() if isinstance(direct, DimArray) else [direct]
+                    out["got"] = [core.enc_label(tuple(x)) for x in got]
+                else:
+                    out["ref"] = [core.canon_value(x) for x in np.asarray(ref, dtype=float).reshape(-1)]
+                    got = direct.values if isinstance(direct, DimArray) else direct
+                    out["got"] = [core.canon_value(x) for x in np.asarray(got, dtype=float).reshape(-1)]
+                return out
+        out = core.guarded(run)
+        out["input"] = before
+        out["inter"] = []
+        if obs11(a, toks) != before:
+            out["operand_modified"] = True
+        return out
+
+    def judge_tred(self, c, io):
+        bad = []
+        if "err" in io:
+            bad.append("outcome")
+        else:
+            o = io["ok"]
+            if o["direct"] != o["via"]:
+                bad.append("tuple_reduction_vs_flattened_group")
+            if o["got"] != o["ref"]:
+                bad.append("tuple_reduction_vs_numpy")
+        if io.get("operand_modified"):
+            bad.append("operand_modified")
+        if not bad:
+            return None
+        return {"kind": "P", "differs": bad, "impl": io.get("ok", io)}
 
     exhaustive_tiers = {"quick": True, "thorough": True}
 
     # ------------------------------------------------------------ implementation side
     def impl(self, c):
+        if c["op"] == "tred":
+            return self.impl_tred(c)
         toks = core.AttrTokens()
         a = core.build_array(c["array"], 0)
         before = obs11(a, toks)
@@ -678,6 +777,8 @@ class C11(Prop):
                 "steps": [lean_step11(st) for st in c["steps"]]}
 
     def judge(self, c, io, ans):
+        if c["op"] == "tred":
+            return self.judge_tred(c, io)
         bad, prop_bad = [], []
         lean = None
         if not c.get("nolean"):
@@ -746,12 +847,20 @@ class C11(Prop):
                 "trace": ans.get("trace")}
 
     def nontrivial(self, c):
+        if c["op"] == "tred":
+            return True
         st = c["steps"][0]
         return (st["fn"] == "flatten" and len(st["dims"]) >= 2) or (st["fn"] == "reshape" and len(c["array"]["axes"]) >= 2)
 
     def features(self, c, io):
         f = {"outcome": "err:" + io["err"] if "err" in io else "ok", "rank": len(c["array"]["axes"]), "len": len(c["steps"]),
              "model": "oracle-only" if c.get("nolean") else "lean"}
+        if c["op"] == "tred":
+            names = [x["name"] for x in c["array"]["axes"]]
+            pos = [names.index(d) for d in c["dims"]]
+            f.update({"fn:tuple_" + c["fn"]: 1, "k": len(c["dims"]), "how": c["how"], "tred.all_dims": len(c["dims"]) == len(names),
+                      "tred.array_order": pos == sorted(pos), "tred.skipna": bool(c.get("skipna"))})
+            return f
         for s in c["steps"]:
             f["fn:" + s["fn"]] = 1
         st = c["steps"][0]
